@@ -746,7 +746,13 @@ asn_double2REAL(REAL_t *st, double dbl_value) {
     }
 
 	/* Remove parts of the exponent, leave mantissa and explicit 1. */
-	dscr[0] = 0x10 | (dscr[0] & 0x0f);
+	if(expval < -1022) {
+		/* Subnormal: there is no implicit 1, the exponent is fixed. */
+		dscr[0] = dscr[0] & 0x0f;
+		expval = -1022;
+	} else {
+		dscr[0] = 0x10 | (dscr[0] & 0x0f);
+	}
 
 	/* Adjust exponent in a very unobvious way */
 	expval -= 8 * ((mstop - dscr) + 1) - 4;
